@@ -53,7 +53,8 @@ def run_one(args):
         sub = engine.Ctx(prop, "thorough")
         sub.new_config("default")
         try:
-            mod.run(sub, facts)
+            from . import rulelib
+            rulelib.run_property(prop, mod, sub, facts)
             sub.check_floors()
         except engine.AnalysisError as e:
             return (mt["name"], "analysis-error", str(e)[:300], [])
